@@ -1,2 +1,51 @@
-(** Correspondence for C02 (FORKID signature hash): see corr/SigHashCorr.v. *)
-From GoBT Require Export corr.SigHashCorr.
+(** Correspondence for C02 (FORKID signature hash): the cases shared with C03 (corr/SigHashCorr.v: calls on one
+    transaction object, node vectors) and, for C02 only, HISTORIES of setter / builder calls — some of them
+    refused — on one long-lived transaction object with digests computed in between (harness/sighash/
+    c02_failed_calls.go).  The transaction the model computes the digests of is never read back from the
+    library: it is [t0] taken through the model of the calls (model/SigBuild.v), where the model itself decides
+    whether PreviousTxIDAdd / PreviousTxIDAddStr / From / FromUTXOs fail and must agree with the verdict observed. *)
+From Coq Require Import String List NArith Bool.
+From Coq Require Import Strings.Byte.
+From GoBT Require Import lib.Bytes lib.Hex model.Tx model.SigHash corr.Corr.
+From GoBT Require Export corr.SigHashCorr model.SigBuild.
+Import ListNotations.
+Local Open Scope N_scope. Local Open Scope bool_scope.
+
+(** one entry of a history: a call with the verdict observed (true: it returned an error), or digests computed at
+    that point (with the SHA-256 of the object's ExtendedBytes after them) *)
+Inductive hstep :=
+| HOp (o : op) (failed : bool)
+| HCalls (after_sha : string) (cs : list call).
+
+Inductive case :=
+| Shared (c : SigHashCorr.case)
+| CHist (t0 : tx) (steps : list hstep).
+
+(** the shared constructors under their own names, so that the case files of the shared families read as before *)
+Definition CCalls (legacy : bool) (t : tx) (after_sha : string) (calls : list call) : case :=
+  Shared (SigHashCorr.CCalls legacy t after_sha calls).
+Definition CVecForkid (raw script : bytes) (idx ht : N) (expected : string) : case :=
+  Shared (SigHashCorr.CVecForkid raw script idx ht expected).
+Definition CVecLegacy (raw script : bytes) (idx ht : N) (expected : string) : case :=
+  Shared (SigHashCorr.CVecLegacy raw script idx ht expected).
+
+Fixpoint check_hist (t : tx) (l : list hstep) : bool :=
+  match l with
+  | [] => true
+  | HOp o failed :: r =>
+      match step_op t o failed with
+      | Some t' => check_hist t' r
+      | None => false                      (* the model's verdict on the call differs from the library's *)
+      end
+  | HCalls after cs :: r =>
+      let '(ok, t') := check_calls false t cs in
+      ok && sha_is (tx_bytes true t') after && check_hist t' r
+  end.
+
+Definition check (c : case) : bool :=
+  match c with
+  | Shared c => SigHashCorr.check c
+  | CHist t0 steps => check_hist t0 steps
+  end.
+
+Definition mismatches := mismatches_with check.
